@@ -827,8 +827,8 @@ def prop_sle_history(ch, ctx):
         op = ch.choice(f'h{k}.op', ['call', 'call', 'given', 'pure', 'comp', 'osol'])
         cur_l, cur_s = sle_rows(s)
         if op == 'given' and mem.ncalls == 0:
-            ctx.cell('sle.hist:avoided:given-on-fresh-solver')     # known finding C15-F4 leaves nothing to continue with
-            op = 'call'
+            # C15-F4 (repaired): on a tree without that fix this step raises and the case is rejected below
+            ctx.cell('sle.hist:given-on-fresh-solver')
         if op == 'osol' and (second is None or cur_l[names.index(second)] + cur_s[names.index(second)] == 0):
             op = 'call'
         who = solute
